@@ -17,8 +17,21 @@ from . import core
 MARK = "\x00"
 
 
+_QCACHE = {}
+
+
 def _q(v):
     """Exact rational z3 numeral for a concrete Python number (decimal meaning of a float)."""
+    key = (type(v), v)
+    r = _QCACHE.get(key)
+    if r is None:
+        r = _q0(v)
+        if len(_QCACHE) < 4096:
+            _QCACHE[key] = r
+    return r
+
+
+def _q0(v):
     if isinstance(v, bool):
         return z3.RealVal(1 if v else 0)
     if isinstance(v, int):
@@ -56,7 +69,11 @@ def _mk_bool(e):
 
 
 def _mk_real(e):
-    return SymReal(z3.simplify(e))
+    return SymReal(e)
+
+
+def _conc(o):
+    return isinstance(o, (int, float, Fraction)) and not isinstance(o, bool)
 
 
 class SymBool(object):
@@ -197,6 +214,8 @@ class SymReal(_Num):
 
     # --- arithmetic ----------------------------------------------------------------------
     def __add__(self, o):
+        if _conc(o) and o == 0:
+            return self
         ot = to_real(o)
         if ot is None:
             return NotImplemented
@@ -205,6 +224,8 @@ class SymReal(_Num):
     __radd__ = __add__
 
     def __sub__(self, o):
+        if _conc(o) and o == 0:
+            return self
         ot = to_real(o)
         if ot is None:
             return NotImplemented
@@ -217,6 +238,12 @@ class SymReal(_Num):
         return _mk_real(ot - self.t)
 
     def __mul__(self, o):
+        if _conc(o):
+            if o == 1:
+                return self
+            if o == 0:
+                return 0
+            return _mk_real(self.t * _q(o))
         ot = to_real(o)
         if ot is None:
             return NotImplemented
@@ -228,6 +255,12 @@ class SymReal(_Num):
     __rmul__ = __mul__
 
     def __truediv__(self, o):
+        if _conc(o):
+            if o == 1:
+                return self
+            if o == 0:
+                raise ZeroDivisionError("float division by zero")
+            return _mk_real(self.t / _q(o))
         ot = to_real(o)
         if ot is None:
             return NotImplemented
